@@ -147,6 +147,8 @@ def enum_tools(net, tier):
         T.append(["cont_elem", 3])
     declining = 0
     for i in net.line.index:
+        if int(net.line.at[i, "parallel"]) > 1:
+            T.append(["merge_parallel", int(i)])
         if float(net.line.at[i, "c_nf_per_km"]) != 0. or float(net.line.at[i, "g_us_per_km"]) != 0.:
             # only_valid_replace declines lines with shunt admittance: quick keeps one such target per net
             declining += 1
@@ -156,8 +158,6 @@ def enum_tools(net, tier):
         T.append(["line2imp2line", int(i)])
         if tier != "quick":
             T.append(["line2imp", int(i), 10.])
-        if int(net.line.at[i, "parallel"]) > 1:
-            T.append(["merge_parallel", int(i)])
     if len(net.line) > 1:
         T.append(["line2imp", "all", "net"])
         # multi-line calls: every ORDERED pair of lines of which at least one is replaceable (the other may be declined
